@@ -23,6 +23,39 @@ SMALL = [0, 1, -1, 0.5, -0.5, 2, 1, 0, -1, 1.5]
 TINY = 2.0 ** -60
 
 
+# exact encoders without size limits (tiny norm values such as 2^-60 or the threshold itself must be representable; whether a run
+# was exact is decided by `certified_exact`, not by the size of the encoded numbers).  Only nan/inf raise `Inexact`.
+def enc_real(x):
+    if isinstance(x, (int, REAL_NP.integer)):
+        return int(x)
+    xf = float(x)
+    if xf != xf or xf in (float('inf'), float('-inf')):
+        raise exact.Inexact('nan/inf')
+    fr = Fraction(xf)
+    return int(fr.numerator) if fr.denominator == 1 else [int(fr.numerator), int(fr.denominator)]
+
+
+def enc_scalar(z):
+    z = complex(z)
+    if z.imag == 0:
+        return enc_real(z.real)
+    return {'re': enc_real(z.real), 'im': enc_real(z.imag)}
+
+
+def enc_array(a):
+    a = REAL_NP.asarray(a)
+
+    def rec(x):
+        if x.ndim == 0:
+            return enc_scalar(x[()])
+        return [rec(y) for y in x]
+    return {'shape': [int(t) for t in a.shape], 'data': rec(a)}
+
+
+def enc_reals(v):
+    return [enc_real(x) for x in REAL_NP.asarray(v).reshape(-1)]
+
+
 class KryRecorder(Recorder):
     def __init__(self, plan=()):
         super().__init__()
@@ -78,15 +111,10 @@ class _Linalg:
             rec.norm_values.append(w)
         rec.raw.append(x)
         try:
-            rec.add('cnorm', [exact.enc_scalar(complex(v)) for v in x], exact.enc_real(w) if w >= 2.0 ** -30 or w == 0 else _enc_tiny(w))
+            rec.add('cnorm', [enc_scalar(v) for v in x], enc_real(w))
         except exact.Inexact:
             rec.inexact = True
         return REAL_NP.float64(w)
-
-
-def _enc_tiny(w):
-    fr = Fraction(float(w))
-    return [int(fr.numerator), int(fr.denominator)]
 
 
 def _fake_scalar(tag, z, cplx):
@@ -113,7 +141,7 @@ class KryNpShim:
             out[idx] = y
             self._rec.raw += [REAL_NP.asarray(x[idx]), REAL_NP.asarray(y)]
             try:
-                self._rec.add('exp', exact.enc_scalar(complex(x[idx])), exact.enc_scalar(complex(y)))
+                self._rec.add('exp', enc_scalar(x[idx]), enc_scalar(y))
             except exact.Inexact:
                 self._rec.inexact = True
         return out if out.ndim else out[()]
@@ -132,9 +160,9 @@ def make_eigh(rec):
         rng = _rng_for('eigh', REAL_NP.concatenate([d, [7.25], e]))
         w = _fake_real_matrix(rng, (k,))
         U = _fake_real_matrix(rng, (k, k))
-        rec.raw += [d, e, w, U]
+        rec.raw += [d, w, U]      # e holds norm outputs
         try:
-            rec.add('eigh', {'alpha': exact.enc_reals(d), 'beta': exact.enc_reals(e)}, {'w': exact.enc_reals(w), 'U': exact.enc_array(U)})
+            rec.add('eigh', {'alpha': enc_reals(d), 'beta': enc_reals(e)}, {'w': enc_reals(w), 'U': enc_array(U)})
         except exact.Inexact:
             rec.inexact = True
         return w, U
@@ -147,9 +175,9 @@ def make_expm(rec):
         assert M.ndim == 2 and M.shape[0] == M.shape[1]
         rng = _rng_for('expm', M)
         E = _fake_real_matrix(rng, M.shape) + 1j * _fake_real_matrix(rng, M.shape) * (rng.random(size=M.shape) < 0.4)
-        rec.raw += [M, E]
+        rec.raw += [REAL_NP.triu(M), E]      # the subdiagonal holds (multiples of) norm outputs
         try:
-            rec.add('expm', exact.enc_array(M), exact.enc_array(E))
+            rec.add('expm', enc_array(M), enc_array(E))
         except exact.Inexact:
             rec.inexact = True
         return E
@@ -193,7 +221,8 @@ def certified_exact(rec, outputs, A, arnoldi):
     kernel inputs, eigh/exp/expm outputs; `rec.raw`) is a multiple of 2^-b below 2^a and the matrix entries are integers below
     2^aA; then the widest intermediate (a term of `np.vdot` against the partially orthogonalised `w` in Arnoldi, the sum
     `np.vdot(A @ v, v)` in Lanczos) needs at most the number of bits computed here.
-    Norm outputs are excluded: they only divide (powers of two, or a zero vector) or are compared.
+    Norm outputs (also where they are stored: `beta`, the subdiagonal of `H`) are excluded: they only divide (powers of two, or a
+    zero vector), are compared, or multiply a stored vector as a power of two.  The caller passes `outputs` without them.
     """
     vals = []
     for o in list(outputs) + rec.raw:
